@@ -1978,6 +1978,8 @@ func TestVerifC05(t *testing.T) {
 			batch = c05GenTrickleSniff(extra, &extraID, 4)
 		}
 	}
+	// end of stream during detection (c05_eos_verif_test.go): short connections, run before the bulk starts
+	c05EOSBatch(m)
 	// Torn-down relays run next to the judged cases: whatever a relay that died with bytes in flight
 	// leaves behind in process-wide state (pooled splice pipes, pooled buffers) must not leak into
 	// the streams of the other connections, which keep being compared byte for byte.
@@ -2081,6 +2083,8 @@ func TestVerifC05(t *testing.T) {
 		"lockstep_lone_byte_after_burst_r2l_fast", "lockstep_lone_byte_after_burst_r2l_buffered",
 		"lockstep_tracked_both_ends", "lockstep_tracked_upstream_only", "lockstep_plain_tcp_both_ends", "lockstep_server_first",
 		"lockstep_proof_control_ok_monitor-conn_monitor-conn", "lockstep_proof_control_ok_kernel-queues_kernel-queues")
+	m.Require(c05EOSRequired...)
+	m.Require("eos_cases_judged", "eos_banner_after_shutdown_delivered_then_eof", "eos_outcome_bufio", "eos_closewrite_on_opaque_upstream")
 	_ = errors.Is
 	m.Done(t)
 }
